@@ -40,6 +40,7 @@ basestring = str
 _AbstractIterableBase = ABCMeta('_AbstractIterableBase', (object,), {})
 from collections import ChainMap
 from reprlib import Repr, recursive_repr
+from threading import get_ident
 
 GLOM_DEBUG = os.getenv('GLOM_DEBUG', '').strip().lower()
 GLOM_DEBUG = False if (GLOM_DEBUG in ('', '0', 'false')) else True
@@ -524,9 +525,19 @@ class _BBRepr(Repr):
             if not isinstance(getattr(self, name), int):
                 continue
             setattr(self, name, 1024)
+        self._active = set()
 
     def repr1(self, x, level):
-        ret = Repr.repr1(self, x, level)
+        # the level limit is turned off above, so a container that contains
+        # itself needs its own guard (per thread: the instance is shared)
+        key = (id(x), get_ident())
+        if key in self._active:
+            return '...'
+        self._active.add(key)
+        try:
+            ret = Repr.repr1(self, x, level)
+        finally:
+            self._active.discard(key)
         if not ret.startswith('<'):
             return ret
         return _BUILTIN_ID_NAME_MAP.get(id(x), ret)
